@@ -20,6 +20,7 @@ type LimCase struct {
 	Limit     int    `json:"limit"`      // MessageLengthLimit
 	ReadLimit int    `json:"read_limit"` // Engine.ReadLimit
 	Scenario  string `json:"scenario"`   // single | fragments | bomb | control-recv | control-send | trickle
+	PingLen   int    `json:"ping_len,omitempty"` // fragments: a ping with this payload (-1: empty) sits between the first two fragments; it is no part of the message
 	Size      int    `json:"size"`       // (inflated) message size
 	Parts     []int  `json:"parts,omitempty"`
 	Piece     int    `json:"piece"`
@@ -58,6 +59,9 @@ func genLimCase(r *simrt.Rand, tier string) *LimCase {
 			left -= p
 		}
 		c.Parts = append(c.Parts, left)
+		if r.Bool(0.3) {
+			c.PingLen = r.Pick(-1, 1, 2, 50, 125)
+		}
 	case "bomb":
 		c.BFinal = r.Bool(0.4)
 		if r.Bool(0.5) {
@@ -153,6 +157,13 @@ func runLim(t *testing.T, ci interface{}, trace bool) *common.Outcome {
 				op = 2
 			}
 			wire = append(wire, Frame{Fin: i == len(c.Parts)-1, Op: op, Masked: c.Server, Payload: mk(p)}.encode(key)...)
+			if i == 0 && c.PingLen != 0 {
+				n := c.PingLen
+				if n < 0 {
+					n = 0
+				}
+				wire = append(wire, Frame{Fin: true, Op: 9, Masked: c.Server, Payload: make([]byte, n)}.encode(key)...)
+			}
 		}
 	case "cfragments":
 		noise := make([]byte, c.Size)
